@@ -2249,3 +2249,166 @@ Proof.
     split; [right; reflexivity|]. split; [|auto].
     split; [intros _; right; right; right; exact Ha|reflexivity].
 Qed.
+
+(* ================================================================== *)
+(* 10. Aggregated statements (pinned in Props/C13.v)                    *)
+(* ================================================================== *)
+
+Theorem progress_ops_preserve_PrInv :
+  (forall n c, PrInv (pr_new n c)) /\
+  forall p, PrInv p ->
+    (forall st, PrInv (reset_state p st)) /\ (forall n, PrInv (pr_reset p n)) /\
+    PrInv (become_probe p) /\ PrInv (become_replicate p) /\ (forall i, PrInv (become_snapshot p i)) /\
+    PrInv (snapshot_failure p) /\ PrInv (resume p) /\ PrInv (pause p) /\
+    (forall n, PrInv (fst (maybe_update p n))) /\ (forall c, PrInv (update_committed p c)) /\
+    (forall n, PrInv (optimistic_update p n)) /\
+    (forall rej hint rs, PrInv (fst (maybe_decr_to p rej hint rs))) /\
+    (forall last p', update_state p last = Ok p' -> PrInv p') /\
+    (forall to i, Inflights.free_to (ins p) to = Ok i -> PrInv (set_ins p i)) /\
+    (forall i, Inflights.free_first_one (ins p) = Ok i -> PrInv (set_ins p i)) /\
+    (forall c i, Inflights.set_cap (ins p) c = Ok i -> PrInv (set_ins p i)) /\
+    PrInv (set_ins p (Inflights.maybe_free_buffer (ins p))).
+Proof.
+  split; [apply PrInv_pr_new|]. intros p H.
+  repeat match goal with |- _ /\ _ => split end; intros; try solve [rinv].
+  - eapply PrInv_update_state; eassumption.
+  - apply PrInv_set_ins. eapply IInv_free_to; eassumption.
+  - apply PrInv_set_ins. eapply IInv_free_first_one; eassumption.
+  - apply PrInv_set_ins. eapply IInv_set_cap; eassumption.
+  - apply PrInv_set_ins. apply IInv_maybe_free_buffer. exact H.
+Qed.
+
+Theorem window_inv_raft_api :
+  (forall r m r' c, step r m = Ok (r', c) -> RInv r -> RInv r') /\
+  (forall r r' b, tick r = Ok (r', b) -> RInv r -> RInv r') /\
+  (forall r cc r' o, raft_apply_conf_change r cc = Ok (r', o) -> RInv r -> RInv r') /\
+  (forall r i t r', on_persist_entries r i t = Ok r' -> RInv r -> RInv r') /\
+  (forall r i r', on_persist_snap r i = Ok r' -> RInv r -> RInv r') /\
+  (forall r a r', commit_apply r a = Ok r' -> RInv r -> RInv r') /\
+  (forall r ents, RInv r -> RInv (reduce_uncommitted_size r ents)) /\
+  (forall r hs r', load_state r hs = Ok r' -> RInv r -> RInv r') /\
+  (forall r r' c, request_snapshot r = Ok (r', c) -> RInv r -> RInv r') /\
+  (forall r r', ping r = Ok r' -> RInv r -> RInv r') /\
+  (forall r target c r', adjust_max_inflight_msgs r target c = Ok r' -> RInv r -> RInv r') /\
+  (forall r, RInv r -> RInv (maybe_free_inflight_buffers r)) /\
+  (forall r lim, RInv r -> RInv (set_max_apply_unpersisted_log_limit r lim)) /\
+  (forall r e r', enable_group_commit r e = Ok r' -> RInv r -> RInv r') /\
+  (forall r ids r', assign_commit_groups r ids = Ok r' -> RInv r -> RInv r') /\
+  (forall r s r' b, restore r s = Ok (r', b) -> RInv r -> RInv r') /\
+  (forall r r', become_leader r = Ok r' -> RInv r -> RInv r') /\
+  (forall r t l r', become_follower r t l = Ok r' -> RInv r -> RInv r').
+Proof.
+  repeat match goal with |- _ /\ _ => split end.
+  - exact step_RInv.
+  - exact tick_RInv.
+  - exact raft_apply_conf_change_RInv.
+  - exact on_persist_entries_RInv.
+  - exact on_persist_snap_RInv.
+  - exact commit_apply_RInv.
+  - exact reduce_uncommitted_size_RInv.
+  - exact load_state_RInv.
+  - exact request_snapshot_RInv.
+  - exact ping_RInv.
+  - exact adjust_max_inflight_msgs_RInv.
+  - exact maybe_free_inflight_buffers_RInv.
+  - exact set_max_apply_unpersisted_log_limit_RInv.
+  - exact enable_group_commit_RInv.
+  - exact assign_commit_groups_RInv.
+  - exact restore_RInv.
+  - exact become_leader_RInv.
+  - exact become_follower_RInv.
+Qed.
+
+Theorem window_inv_rawnode_api :
+  (forall n m n' c, rn_step n m = Ok (n', c) -> NInv n -> NInv n') /\
+  (forall n n' b, rn_tick n = Ok (n', b) -> NInv n -> NInv n') /\
+  (forall n n' c, rn_campaign n = Ok (n', c) -> NInv n -> NInv n') /\
+  (forall n ctx data n' c, rn_propose n ctx data = Ok (n', c) -> NInv n -> NInv n') /\
+  (forall n ctx data ty ci n' c,
+     rn_propose_conf_change n ctx data ty ci = Ok (n', c) -> NInv n -> NInv n') /\
+  (forall n cc n' o, rn_apply_conf_change n cc = Ok (n', o) -> NInv n -> NInv n') /\
+  (forall n n', rn_ping n = Ok n' -> NInv n -> NInv n') /\
+  (forall n n' rd, rn_ready n = Ok (n', rd) -> NInv n -> NInv n') /\
+  (forall n num n', rn_on_persist_ready n num = Ok n' -> NInv n -> NInv n') /\
+  (forall n rd n' lr, rn_advance_append n rd = Ok (n', lr) -> NInv n -> NInv n') /\
+  (forall n rd n', rn_advance_append_async n rd = Ok n' -> NInv n -> NInv n') /\
+  (forall n a n', rn_advance_apply_to n a = Ok n' -> NInv n -> NInv n') /\
+  (forall n n', rn_advance_apply n = Ok n' -> NInv n -> NInv n') /\
+  (forall n rd n' lr, rn_advance n rd = Ok (n', lr) -> NInv n -> NInv n') /\
+  (forall n id n', rn_report_unreachable n id = Ok n' -> NInv n -> NInv n') /\
+  (forall n id f n', rn_report_snapshot n id f = Ok n' -> NInv n -> NInv n') /\
+  (forall n n' c, rn_request_snapshot n = Ok (n', c) -> NInv n -> NInv n') /\
+  (forall n t n', rn_transfer_leader n t = Ok n' -> NInv n -> NInv n') /\
+  (forall n ctx n', rn_read_index n ctx = Ok n' -> NInv n -> NInv n').
+Proof.
+  repeat match goal with |- _ /\ _ => split end.
+  - exact rn_step_NInv.
+  - exact rn_tick_NInv.
+  - exact rn_campaign_NInv.
+  - exact rn_propose_NInv.
+  - exact rn_propose_conf_change_NInv.
+  - exact rn_apply_conf_change_NInv.
+  - exact rn_ping_NInv.
+  - exact rn_ready_NInv.
+  - exact rn_on_persist_ready_NInv.
+  - exact rn_advance_append_NInv.
+  - exact rn_advance_append_async_NInv.
+  - exact rn_advance_apply_to_NInv.
+  - exact rn_advance_apply_NInv.
+  - exact rn_advance_NInv.
+  - exact rn_report_unreachable_NInv.
+  - exact rn_report_snapshot_NInv.
+  - exact rn_request_snapshot_NInv.
+  - exact rn_transfer_leader_NInv.
+  - exact rn_read_index_NInv.
+Qed.
+
+(* construction: a tracker built by confchange::restore / apply_conf holds fresh windows *)
+Theorem window_inv_fresh :
+  (forall ids n mi, PrsInv (fresh_progress ids n mi)) /\
+  (forall chs m n mi, PrsInv m -> PrsInv (apply_changes m chs n mi)) /\
+  PrsInv [].
+Proof.
+  split; [apply fresh_progress_PrsInv|]. split; [intros; apply apply_changes_PrsInv; assumption|].
+  constructor.
+Qed.
+
+(* ================================================================== *)
+(* 11. A concrete leader, for the non-vacuity examples                  *)
+(* ================================================================== *)
+
+Definition ex_ent (i t : N) (data : list N) : entry := mkEntry 0 t i data [].
+
+(* store: entries 1..3 of term 1; unstable: entry 4; committed 2 *)
+Definition ex_store : MemStorage.mem :=
+  mkMem (mkHS 1 1 2) (mkCS [1;2;3] [] [] [] false)
+        [ex_ent 1 1 []; ex_ent 2 1 [7;7;7]; ex_ent 3 1 [8;8]] 0 0 false false None.
+Definition ex_log : raft_log := mkLog ex_store (mkUn None [ex_ent 4 1 [9]] 13 4) 2 3 2 0.
+Definition ex_pr (st : pstate) (m n : N) (pz : bool) (w : inflights) : progress :=
+  mkPr m n st pz 0 0 true w 0 0.
+Definition ex_conf : conf := mkConf [1;2;3] [] [] [] false.
+Definition ex_prs : list (N * progress) :=
+  [(1, ex_pr Replicate 3 5 false (Inflights.new 2));
+   (2, ex_pr Replicate 1 2 false (Inflights.new 2));
+   (3, ex_pr Probe 0 2 false (Inflights.new 2))].
+(* leader 1 of term 1, window 2, max_uncommitted_size 10 with 4 bytes outstanding *)
+Definition ex_raft (maxsz : N) (batch : bool) (msgs : list msg) : raft :=
+  mkRaft 1 1 1 [] ex_log 2 maxsz 0 Leader true 1 None 0 (mkRO 0 [] []) 0 0 false false false
+         batch false 1 10 10 10 20 0%Z 10 4 0 u64_max
+         (mkTr ex_prs ex_conf [] 2 false) msgs [] None.
+Definition ex_pr2 : progress := ex_pr Replicate 1 2 false (Inflights.new 2).
+Definition ex_pr3 : progress := ex_pr Probe 0 2 false (Inflights.new 2).
+
+Lemma ex_LogInv : LogInv ex_log.
+Proof.
+  split.
+  - unfold MemStorageProofs.RepInv. split; [cbn; repeat split|].
+    split; [apply N.ltb_lt; reflexivity|apply N.leb_le; reflexivity].
+  - cbn. repeat split.
+Qed.
+
+Lemma ex_RInv : forall sz b msgs, RInv (ex_raft sz b msgs).
+Proof.
+  intros. unfold RInv, ex_raft, ex_prs, PrsInv. cbn [r_prs t_progress].
+  repeat (apply Forall_cons; [apply IInv_new|]). apply Forall_nil.
+Qed.
